@@ -275,6 +275,12 @@ func VH_C13_NestedIteration() {
 						if readOnly {
 							vhAssert(err != nil, "read-only iteration: child mutation is reported")
 							vhAssert(vhIsReadOnlyMutation(err), "read-only iteration: mutation error kind")
+							// ... and every further attempt on the same object as well
+							err2 := c.Append(vElem{tag: 601, size: vhRange32("grow", 1, 250)})
+							vhAssert(err2 != nil, "read-only iteration: second child mutation is reported too")
+							vhAssert(vhIsReadOnlyMutation(err2), "read-only iteration: second mutation error kind")
+							// (what a rejected mutation leaves behind in memory is documented as
+							// unspecified -- "not guaranteed to persist" -- and not asserted)
 						} else {
 							vhAssert(err == nil, "mutable iteration: child mutation supported")
 						}
